@@ -308,10 +308,16 @@ func (c *Checker) stepwise(b *Battle) {
 		}
 		lis := &listener{sim: sim, M: b.M}
 		sim.AddReporter(lis)
-		var sr *g.StateRecorder
+		var sr, sr2 *g.StateRecorder
+		var sf *streamFold
 		if c.Props.C15 {
 			sr = g.NewStateRecorder(sim)
 			sim.AddReporter(sr)
+			sr2 = g.NewStateRecorder(sim)
+			sr2.SetRecordRead(true)
+			sim.AddReporter(sr2)
+			sf = newStreamFold(b)
+			sim.AddReporter(sf)
 		}
 		var hs []g.Warrior
 		for _, w := range b.Ws {
@@ -385,6 +391,7 @@ func (c *Checker) stepwise(b *Battle) {
 			}
 			if c.Props.C15 {
 				c.reports(b, lis, hs, heads, final, fold, sr, cyc)
+				c.compareReadRecorder(b, sr2, sf, cyc)
 			}
 			if !agree {
 				return
